@@ -1716,7 +1716,8 @@ post_t * instance_t::parse_post(char *          line,
 
       // Subtract amounts from previous posts to this account in the xact.
       for (post_t* p : xact->posts) {
-        if (p->account == post->account && p->has_flags(POST_VIRTUAL) == post->has_flags(POST_VIRTUAL)) {
+        if (p->account == post->account &&
+            (post->has_flags(POST_VIRTUAL) || ! p->has_flags(POST_VIRTUAL))) {
           amount_t amt(p->amount.strip_annotations(keep_details_t()));
           diff -= amt;
           DEBUG("textual.parse", "line " << context.linenum << ": "
